@@ -35,8 +35,8 @@ RULE = (
     "One run = one (aggregation, multiset, split): the members of one group (values from {-2,-1,0,1,2,0.5,NaN,+inf,-inf}; "
     "integers without the last three) are split into 1-3 ordered blocks where a block may hold no member of the group "
     "(only a second group, or only missing labels) or only NaN for it; every registry aggregation with a block stage and "
-    "5 user-defined Aggregation objects built from the public constructor (callable block functions, finalize, two "
-    "intermediates with distinct fills, a closure that must survive deepcopy and cloudpickle) under map-reduce (reindex "
+    "7 user-defined Aggregation objects built from the public constructor (callable block functions, a callable combine, finalize with finalize_kwargs, two "
+    "intermediates with distinct fills, a dtypes tuple, a closure that must survive deepcopy and cloudpickle) under map-reduce (reindex "
     "at block or combine stage) and cohorts with split_every=2 (three blocks -> two-level tree), executed on the "
     "simulated cluster with faults on (the aggregation object is shipped inside every task). Oracle: NumPy on the unsplit "
     "members (equal_nan; arg* only on NaN-free groups, nan* order/extreme reductions only when a valid member exists). "
@@ -100,6 +100,10 @@ def gen(tape: Tape, tier: str) -> dict:
     method = tape.choice("gen.method", ["map-reduce", "map-reduce", "cohorts"])
     reindex = tape.choice("gen.reindex", [None, True, False]) if method == "map-reduce" else tape.choice("gen.reindexc", [None, False])
     kwargs = {"func": func, "method": method}
+    if custom:
+        from ..custom_aggs import CUSTOM_KWARGS
+
+        kwargs.update(CUSTOM_KWARGS.get(fname, {}))
     if reindex is not None:
         kwargs["reindex"] = reindex
     knobs = swarm_knobs(tape, nblocks, fault_free_p=0.2)
